@@ -88,6 +88,10 @@ func Unmarshal(data []byte, msg interface{}) error {
 	}
 
 	if pu, ok := msg.(ProtoV1Unmarshaler); ok {
+		// XXX_Unmarshal merges into the existing contents: like the runtime's own proto.Unmarshal, start from a reset message
+		if r, ok := msg.(interface{ Reset() }); ok {
+			r.Reset()
+		}
 		return pu.XXX_Unmarshal(data)
 	}
 
